@@ -139,6 +139,17 @@ func (a *Act) modTarget0(callee *ssa.Function, e Expr) *modTargetInfo {
 		info.pred = func(env *Env, r Term) Term { return "true" }
 		return info
 	}
+	// fields(x): every field of every object of the struct type x points to (coarse: the whole field heaps) -
+	// for linked structures (trees) whose nodes cannot be enumerated in a contract
+	if c, ok := e.(*ECall); ok && c.Fn == "fields" && len(c.Args) == 1 {
+		t := derefType(a.specType(callee, c.Args[0]))
+		if !isStructType(t) {
+			fail("modifies fields(%s): not a pointer to a struct", c.Args[0])
+		}
+		info.heaps = a.leafHeaps(t)
+		info.pred = func(env *Env, r Term) Term { return "true" }
+		return info
+	}
 	// *x : the cell or struct x points to
 	if un, ok := e.(*EUnary); ok && un.Op == "*" {
 		t := a.specType(callee, un.X)
@@ -583,6 +594,41 @@ func (a *Act) callByContract(st *State, callee *ssa.Function, fc *FuncContract, 
 	// havoc
 	if fc.NoFrame {
 		a.havocHeaps(st, false)
+	} else if fc.ModCallbacks {
+		// effect of the function values handed over: closures with a contract contribute their modifies
+		// clauses (evaluated over their captured variables); anything else makes the effect unknown
+		known := true
+		for i, v := range args {
+			if i >= callee.Signature.Params().Len()+btoi(callee.Signature.Recv() != nil) {
+				break
+			}
+			if _, isFn := types.Unalias(v.Typ).Underlying().(*types.Signature); !isFn {
+				continue
+			}
+			cfc := u.E.Contracts[v.Fn]
+			if v.Fn == nil || cfc == nil || cfc.NoFrame || cfc.ModCallbacks {
+				known = false
+				break
+			}
+		}
+		if !known {
+			a.havocHeaps(st, false)
+		} else {
+			for _, v := range args {
+				if v.Fn == nil {
+					continue
+				}
+				cfc := u.E.Contracts[v.Fn]
+				if cfc == nil {
+					continue
+				}
+				cenv := a.fnEnv(v.Fn, nil, v.Env, st, pre, nil)
+				a.havocTargets(st, pre, cenv, v.Fn, cfc)
+			}
+			na := u.D.Fresh("alloc", "Int")
+			u.Fact(app(">=", na, st.alloc))
+			st.alloc = na
+		}
 	} else {
 		a.havocTargets(st, pre, penv, callee, fc)
 		na := u.D.Fresh("alloc", "Int")
@@ -862,7 +908,7 @@ func (e *Engine) VerifyFunc(fn *ssa.Function, fc *FuncContract, smoke bool) (res
 		u.Oblige("post", detail, e.Pos(fn.Pos()), "postcondition: "+cl.Src, out.guard, t, cl.Tags)
 	}
 	// frame
-	if !fc.NoFrame {
+	if !fc.NoFrame && !fc.ModCallbacks {
 		a.frameObligations(out, fc)
 	}
 	return res
@@ -1154,4 +1200,11 @@ func (a *Act) hasDynamicCallbacks() bool {
 		}
 	}
 	return false
+}
+
+func btoi(b bool) int {
+	if b {
+		return 1
+	}
+	return 0
 }
